@@ -55,6 +55,8 @@ enum OpKind {
     NextAddress(usize),
     SubtreeRoots,
     PruneQueue,
+    StoreSentBatch(u32),
+    StoreDecryptedTx { mined: bool },
 }
 
 impl OpKind {
@@ -78,6 +80,8 @@ impl OpKind {
             OpKind::NextAddress(i) => format!("addr:{i}"),
             OpKind::SubtreeRoots => "roots".into(),
             OpKind::PruneQueue => "prune".into(),
+            OpKind::StoreSentBatch(n) => format!("sent:{n}"),
+            OpKind::StoreDecryptedTx { mined } => format!("dtx:{}", *mined as u8),
         }
     }
 
@@ -102,6 +106,8 @@ impl OpKind {
             "addr" => OpKind::NextAddress(n(1) as usize),
             "roots" => OpKind::SubtreeRoots,
             "prune" => OpKind::PruneQueue,
+            "sent" => OpKind::StoreSentBatch(n(1) as u32),
+            "dtx" => OpKind::StoreDecryptedTx { mined: n(1) != 0 },
             other => panic!("bad op {other}"),
         }
     }
@@ -125,6 +131,8 @@ impl OpKind {
             OpKind::NextAddress(_) => "get_next_available_address",
             OpKind::SubtreeRoots => "put_subtree_roots",
             OpKind::PruneQueue => "prune_scan_queue_below",
+            OpKind::StoreSentBatch(_) => "store_transactions_to_be_sent",
+            OpKind::StoreDecryptedTx { .. } => "store_decrypted_tx",
         }
     }
 }
@@ -306,8 +314,74 @@ macro_rules! apply_body {
             .prune_scan_queue_below(BlockHeight::from_u32(cx.prefix - 3), None)
             .map(|n| format!("{n}"))
             .map_err(|e| format!("{e:?}")),
+        OpKind::StoreSentBatch(n) => {
+            // what create_proposed_transactions hands over for a multi-step proposal: ONE call
+            // with several transactions (bundle-less v5 shells that differ in their expiry; an
+            // external recipient is recorded for each)
+            let txs = shell_txs(*n, cx.prefix);
+            let acct = cx.accounts[0];
+            let addr: zcash_address::ZcashAddress = zcash_keys::address::Address::from(
+                cx.sim.foreign.dfvk.default_address().1,
+            )
+            .to_zcash_address(&cx.sim.net);
+            let outs: Vec<zcash_client_backend::data_api::SentTransactionOutput<AccountUuid>> = vec![
+                zcash_client_backend::data_api::SentTransactionOutput::from_parts(
+                    0,
+                    zcash_client_backend::wallet::Recipient::External { recipient_address: addr, output_pool: PoolType::Shielded(ShieldedPool::Sapling) },
+                    Zatoshis::from_u64(12345).unwrap(),
+                    None,
+                ),
+            ];
+            let sent: Vec<zcash_client_backend::data_api::SentTransaction<'_, AccountUuid>> = txs
+                .iter()
+                .map(|tx| {
+                    zcash_client_backend::data_api::SentTransaction::new(
+                        tx,
+                        time::OffsetDateTime::UNIX_EPOCH,
+                        zcash_client_backend::data_api::wallet::TargetHeight::from(BlockHeight::from_u32(cx.prefix + 1)),
+                        acct,
+                        &outs,
+                        Zatoshis::from_u64(10_000).unwrap(),
+                        &[],
+                    )
+                })
+                .collect();
+            db.store_transactions_to_be_sent(&sent).map(|_| String::new()).map_err(|e| format!("{e:?}"))
+        }
+        OpKind::StoreDecryptedTx { mined } => {
+            let txs = shell_txs(1, cx.prefix + 7);
+            let d = zcash_client_backend::data_api::DecryptedTransaction::<_, AccountUuid>::new(
+                mined.then_some(BlockHeight::from_u32(cx.prefix)),
+                &txs[0],
+                vec![],
+                vec![],
+                vec![],
+            );
+            db.store_decrypted_tx(d).map(|_| String::new()).map_err(|e| format!("{e:?}"))
+        }
         }
     }};
+}
+
+/// `n` distinct bundle-less v5 transactions (they differ in expiry height, hence in txid).
+fn shell_txs(n: u32, salt: u32) -> Vec<zcash_primitives::transaction::Transaction> {
+    use zcash_primitives::transaction::{TransactionData, TxVersion};
+    (1..=n)
+        .map(|i| {
+            TransactionData::from_parts(
+                TxVersion::V5,
+                zcash_protocol::consensus::BranchId::Nu5,
+                0,
+                BlockHeight::from_u32(salt + 1000 + i),
+                None,
+                None,
+                None,
+                None,
+            )
+            .freeze()
+            .unwrap()
+        })
+        .collect()
 }
 
 /// Applies `op`; Ok(debug string of the result) or Err(error string).
@@ -364,6 +438,8 @@ fn candidate_ops(sc: &Ctx, rng: &mut ChaCha20Rng) -> Vec<OpKind> {
         OpKind::NextAddress(rng.gen_range(0..2)),
         OpKind::SubtreeRoots,
         OpKind::PruneQueue,
+        OpKind::StoreSentBatch(rng.gen_range(2..5)),
+        OpKind::StoreDecryptedTx { mined: rng.gen_bool(0.5) },
     ];
     ops.shuffle(rng);
     ops
